@@ -15,6 +15,15 @@ UNITS = [0, 1, -1, 1j, -1j]
 
 def rand_m(rng, d, rich=False):
     """small Gaussian-integer dxd matrix, not the identity, rows with <= 2 non-zero entries (keeps products tiny)"""
+    if rng.random() < 0.12:
+        # diagonal, every diagonal entry non-zero, trace exactly d - and not the identity (diag(1+i, 1-i), diag(3, -1), ...):
+        # nothing that merely LOOKS like the identity through its trace / sparsity pattern may be treated as one
+        pairs = [(1 + 1j, 1 - 1j), (3, -1), (2 + 1j, -1j), (1 + 2j, 1 - 2j)]
+        diag = []
+        for _ in range(d // 2):
+            a, b = rng.choice(pairs)
+            diag += [a, b] if rng.random() < 0.5 else [b, a]
+        return np.diag(np.array(diag, dtype=complex))
     while True:
         M = np.zeros((d, d), dtype=complex)
         for r in range(d):
